@@ -215,6 +215,11 @@ for _p, _rules in (("C01", ["CW-ALLOC-INIT", "CW-DEFER-WRAPPER"]), ("C02", ["EBR
                    # (an unprotected guard runs deferred closures at once) starts a nested cascade at depth 0
                    ("C07", ["CW-DEFERRED-ONLY"]), ("C15", ["EBR-TUNABLES"]), ("C04", ["EBR-TUNABLES"]), ("C20", ["EBR-TUNABLES"]),
                    ("C20", ["EBR-FLUSH-SCHEDULES"]),
+                   # a step written inside a debug_assert! exists in the build the tests run and in no release build: whatever the
+                   # property, the code judged must be the code that ships (round-9 RELEASE seeds)
+                   ("C02", ["DBG-PURE"]), ("C03", ["DBG-PURE"]), ("C06", ["DBG-PURE"]), ("C07", ["DBG-PURE"]), ("C08", ["DBG-PURE"]),
+                   ("C09", ["DBG-PURE"]), ("C10", ["DBG-PURE"]), ("C12", ["DBG-PURE"]), ("C14", ["DBG-PURE"]), ("C17", ["DBG-PURE"]),
+                   ("C18", ["DBG-PURE"]), ("C20", ["DBG-PURE"]),
                    # "all n nodes are destructed" / "still reclaims every node": a node the cascade puts off (depth cap, stamp
                    # too recent) is handed to a deferred try_destruct - not dropped on the floor, not merely freed
                    ("C06", ["CW-DESTRUCT-ORDER"]), ("C07", ["CW-DESTRUCT-ORDER", "CW-ZERO-DEFERS"]),
